@@ -88,10 +88,29 @@ def run(ctx):
         dirs[i] = cur
     if any("wire-unreadable" in k for k in mm.values()):
         raise vlib.Inconclusive("the driver's own HPACK reader could not read a block: %s" % sorted(mm.items())[:2])
+    # Blame: in m2x the decoder is the reference, in x2m the encoder is.  A block from MOSN's encoder that the
+    # specification's decoder accepts (valid for the shared table, means the input list, MOSN's table as specified)
+    # but x/net's decoder does not, is a deviation of the reference, and so is a wire from x/net's encoder that the
+    # specification rejects: both are recorded in the evidence, neither is a verdict about MOSN.
+    WIRE = {"wire-invalid-for-the-shared-table", "wire-means-another-list", "sensitive-field-indexed",
+            "table-larger-than-announced-size", "smallest-size-not-signalled"}
+    DEC = {"decoder-rejected-block", "decoded-list-differs"}
+    refdev = {}
     for line, kinds in sorted(mm.items()):
+        d = dirs.get(line)
+        if d == "m2x" and kinds <= DEC:
+            refdev.setdefault("x/net decoder rejects a block the specification accepts", []).append(line)
+            continue
+        if d == "x2m" and kinds & WIRE:
+            refdev.setdefault("x/net encoder emits a block the specification rejects", []).append(line)
+            continue
         for kind in sorted(kinds):
-            vlib.report_failure(ctx, "C18:hpack:%s:%s" % (dirs.get(line), kind),
+            vlib.report_failure(ctx, "C18:hpack:%s:%s" % (d, kind),
                                 dict(line=line, event=evs[line - 1], context=evs[max(0, line - 4):line]))
+    for what, lines in refdev.items():
+        ctx.notes.append("reference deviation (not a verdict): %s, %d blocks, e.g. %s" % (
+            what, len(lines), json.dumps(evs[lines[0] - 1])[:700]))
+    ctx.cov["parts"]["hpack"]["reference_deviations"] = {k: len(v) for k, v in refdev.items()}
     hard_reject(ctx, "hpack", v_hp.result(), evs)
 
     # frames
@@ -199,7 +218,7 @@ def run(ctx):
 
 def finish_cov(ctx, q, per, nall):
     ctx.cov["exhaustive"] = False
-    ctx.cov["rule"] = ("hpack: every history of <=%d operations (field from 8 shapes incl. static full/name match, repeated name, "
+    ctx.cov["rule"] = ("hpack: every history of <=%d field/end-of-block operations and <=2 (thorough 3) SETTINGS changes (field from 8 shapes incl. static full/name match, repeated name, "
                        "sensitive, long huffman value | SETTINGS_HEADER_TABLE_SIZE in {0,36,73,4096}: exact fits of one and two entries | end of block), both "
                        "directions MOSN<->x/net, one evaluation per header block (exhaustive); frames: every sequence of <=%d units "
                        "(HEADERS x padding x priority x 0..3 (thorough 0..4) CONTINUATION, DATA x padding x length, SETTINGS, WINDOW_UPDATE, PING, "
@@ -207,7 +226,7 @@ def finish_cov(ctx, q, per, nall):
                        "byte-wise (exhaustive; one evaluation per read-back); flow: per variant (direction x unit 1|7|8192 bytes x "
                        "buffered|streamed body) a VERIF_SEED sample of %d of the %d schedules TLC enumerated (2 streams, bodies, "
                        "initial windows, connection window, <=%d peer operations WU/WUconn/SETTINGS), one evaluation per DATA frame / "
-                       "sync point / header block / end of case" % (5 if q else 6, 2, per, nall, 3 if q else 4))
+                       "sync point / header block / end of case" % (4 if q else 5, 2, per, nall, 3 if q else 4))
     ctx.assumptions += ["the peer changes SETTINGS only while the sender is quiet (a DATA frame taken under the old value may "
                         "legitimately follow the acknowledgement otherwise); WINDOW_UPDATEs arrive at any time",
                         "clear-text HTTP/2 with prior knowledge on both sides of MOSN; x/net v0.23.0 is the reference peer",
